@@ -80,17 +80,17 @@ type Violation struct {
 
 // WorkerResult is what one worker process reports to the parent.
 type WorkerResult struct {
-	Property    string            `json:"property"`
-	Evaluations int64             `json:"evaluations"`
-	Cases       int64             `json:"cases"`
-	Nontrivial  []uint64          `json:"nontrivial"` // hashes of distinct non-trivial cases
-	Hist        map[string]int64  `json:"hist"`
+	Property    string              `json:"property"`
+	Evaluations int64               `json:"evaluations"`
+	Cases       int64               `json:"cases"`
+	Nontrivial  []uint64            `json:"nontrivial"` // hashes of distinct non-trivial cases
+	Hist        map[string]int64    `json:"hist"`
 	Sets        map[string][]uint64 `json:"sets"` // named sets of hashes (distinct states, traces ...)
-	Samples     []json.RawMessage `json:"samples"`
-	Violations  []Violation       `json:"violations"`
-	Notes       []string          `json:"notes"`
-	Exhaustive  map[string]int64  `json:"exhaustive"` // sub-space name -> number of cases enumerated completely
-	Done        bool              `json:"done"`
+	Samples     []json.RawMessage   `json:"samples"`
+	Violations  []Violation         `json:"violations"`
+	Notes       []string            `json:"notes"`
+	Exhaustive  map[string]int64    `json:"exhaustive"` // sub-space name -> number of cases enumerated completely
+	Done        bool                `json:"done"`
 }
 
 // Ctx is handed to a unit (one sub-workload of a property) for one case.
@@ -106,14 +106,14 @@ type Ctx struct {
 }
 
 type Worker struct {
-	mu       sync.Mutex
-	res      WorkerResult
-	nt       map[uint64]struct{}
-	sets     map[string]map[uint64]struct{}
-	journal  *os.File
-	maxViol  int
-	sigSeen  map[string]int
-	replay   bool
+	mu      sync.Mutex
+	res     WorkerResult
+	nt      map[uint64]struct{}
+	sets    map[string]map[uint64]struct{}
+	journal *os.File
+	maxViol int
+	sigSeen map[string]int
+	replay  bool
 }
 
 func newWorker(prop string, journalPath string) *Worker {
@@ -288,10 +288,10 @@ type Unit struct {
 }
 
 type Property struct {
-	ID    string
-	Level string // exploration | fault_enumeration
-	Rule  string
-	Units []Unit
+	ID          string
+	Level       string // exploration | fault_enumeration
+	Rule        string
+	Units       []Unit
 	Assumptions []string
 	// Build variants needed: "plain", "race", "checkptr"
 	Builds []string
@@ -369,6 +369,10 @@ func runCase(p *Property, u *Unit, tier string, caseSeed uint64, indexed bool, w
 			// A panic that escapes a unit un-guarded is attributed to the harness unless
 			// a roaring frame is at the top of the stack.
 			sig := "harness/unexpected-panic"
+			if d, isFault := classifyFault(r); isFault {
+				c.Fail("memory-fault/"+topRoaringFunc(st), "%s\npanic: %v\n%s", d, r, trimStack(st))
+				return
+			}
 			if strings.Contains(firstFrames(st, 8), "RoaringBitmap/roaring") {
 				sig = "library-panic/" + topRoaringFunc(st)
 			}
